@@ -21,15 +21,6 @@ import MptModel.Spec.Tokens
 namespace Mpt.C05
 open Mpt Mpt.Heap
 
-/-- S on callback events: `none` = the event is illegal (a created token already exists, a copy source or a
-    destroyed token is not alive) -/
-def replay (l : Tokens.Live) : List Ev → Option Tokens.Live
-  | [] => some l
-  | .init t :: r => if Tokens.isLive l t then none else replay (Tokens.create l t) r
-  | .copy t k :: r => if Tokens.isLive l t ∨ ¬ Tokens.isLive l k then none else replay (Tokens.create l t) r
-  | .fail :: r => replay l r
-  | .fini t :: r => if Tokens.isLive l t then replay (Tokens.destroy l t) r else none
-
 /-- destroying exactly the tokens `toks` (each alive, pairwise distinct, apart from `rest`) is legal and
     leaves exactly `rest` alive -/
 theorem replay_fini (toks rest : List Nat) (nd : (toks ++ rest).Nodup) :
